@@ -665,6 +665,7 @@ def remap_by_types(
             # For each definition try to get typing results out of it.
             # Take the base possible one.
             return_results: List[_MethodTypeReturnInfo] = []
+            normalized_node: Optional[ast.Call] = None
             for base_obj in base_obj_list:
                 # Do basic static analysis without doing any call backs.
                 # The stream operators themselves (`Select`, etc.) keep the arguments as
@@ -674,6 +675,8 @@ def remap_by_types(
                     r_node,
                     fill_arguments=base_obj.method_class is not ObjectStream,
                 )
+                if normalized_node is None:
+                    normalized_node = default_args_node
                 return_annotation = resolve_type_vars(
                     return_annotation_raw, base_obj.obj_type, at_class=base_obj.method_class
                 )
@@ -707,9 +710,13 @@ def remap_by_types(
                     logging.getLogger(__name__).warning(
                         f"Method {r_node.func.attr} not " f"found on object {obj_type}"
                     )
+                # The call keeps its declared arguments even if we can't tell what it returns
                 return_results.append(
                     _MethodTypeReturnInfo(
-                        node=r_node, return_type=Any, full_type_resolution=True, obj_info=None
+                        node=normalized_node if normalized_node is not None else r_node,
+                        return_type=Any,
+                        full_type_resolution=True,
+                        obj_info=None,
                     )
                 )
 
